@@ -1399,6 +1399,7 @@ func compileTableExpr(context *funcContext, reg int, ex *ast.TableExpr, ec *expc
 	regbase := reg
 
 	arraycount := 0
+	pending := 0 // positional values held in registers, not yet stored by a SETLIST
 	lastvararg := false
 	for i, field := range ex.Fields {
 		islast := i == len(ex.Fields)-1
@@ -1409,6 +1410,7 @@ func compileTableExpr(context *funcContext, reg int, ex *ast.TableExpr, ec *expc
 			} else {
 				reg += compileExpr(context, reg, field.Value, ecnone(0))
 				arraycount += 1
+				pending += 1
 			}
 		} else {
 			regorg := reg
@@ -1424,7 +1426,8 @@ func compileTableExpr(context *funcContext, reg int, ex *ast.TableExpr, ec *expc
 			reg = regorg
 		}
 		flush := arraycount % FieldsPerFlush
-		if (arraycount != 0 && (flush == 0 || islast)) || lastvararg {
+		if (pending > 0 && (flush == 0 || islast)) || lastvararg {
+			pending = 0
 			reg = regbase
 			num := flush
 			if num == 0 {
